@@ -48,9 +48,48 @@ Fixpoint html_rows (cursor : option (Z * Z)) (y : Z) (rows : list crow) : result
 Definition html_draw (maxrow : Z) (rows : list crow) (cursor : option (Z * Z)) : result (list (list hspan)) :=
   if negb (maxrow =? zlen rows) then Err ValueError else html_rows cursor 0 rows.
 
+(* ---------- html.escape(string) (quote=True), on code points ---------- *)
+Definition escape_chr (c : Z) : list Z :=
+  if c =? 38 then [38; 97; 109; 112; 59]                    (* &amp; *)
+  else if c =? 60 then [38; 108; 116; 59]                   (* &lt; *)
+  else if c =? 62 then [38; 103; 116; 59]                   (* &gt; *)
+  else if c =? 34 then [38; 113; 117; 111; 116; 59]         (* &quot; *)
+  else if c =? 39 then [38; 35; 120; 50; 55; 59]            (* &#x27; *)
+  else [c].
+Definition html_escape (s : list Z) : list Z := flat_map escape_chr s.
+
+(* a reader of the emitted text: the five entities html.escape produces, anything else literally *)
+Fixpoint strip_prefix (p l : list Z) : option (list Z) :=
+  match p with
+  | [] => Some l
+  | x :: p' => match l with y :: l' => if x =? y then strip_prefix p' l' else None | [] => None end
+  end.
+Definition entities : list (list Z * Z) :=
+  [([38; 97; 109; 112; 59], 38); ([38; 108; 116; 59], 60); ([38; 103; 116; 59], 62);
+   ([38; 113; 117; 111; 116; 59], 34); ([38; 35; 120; 50; 55; 59], 39)].
+Fixpoint read_entity (es : list (list Z * Z)) (l : list Z) : option (Z * list Z) :=
+  match es with
+  | [] => None
+  | (p, c) :: es' => match strip_prefix p l with Some r => Some (c, r) | None => read_entity es' l end
+  end.
+Fixpoint html_unescape (fuel : nat) (l : list Z) : list Z :=
+  match fuel with
+  | O => []
+  | S k => match l with
+           | [] => []
+           | c :: r => match read_entity entities l with
+                       | Some (ch, rest) => ch :: html_unescape k rest
+                       | None => c :: html_unescape k r
+                       end
+           end
+  end.
+
+(* the text between <span ...> and </span> *)
+Definition span_markup (s : hspan) : list Z := html_escape (map fst (hs_text s)).
+
 (* ---------- wire ---------- *)
 Definition enc_span (s : hspan) : list Z :=
-  let 'HSpan a b t := s in a :: enc_bool b :: zlen t :: map fst t.
+  let 'HSpan a b t := s in a :: enc_bool b :: zlen (span_markup s) :: span_markup s.
 Definition enc_hrow (r : list hspan) : list Z := zlen r :: flat_map enc_span r.
 
 Definition html_case (l : list Z) : list Z :=
